@@ -8,6 +8,9 @@ minimum/maximum_word_length, isempty, isfinite, random_word, successors / succes
 as atomic calls (key=None, fresh callables, or ONE callable `rank.get` of a shared dict that is
 re-filled between the calls), minify / to_partial (read the `_get_digraph` memo), complement,
 union, comparisons with another DFA (==, <=, >=, <, >, issubset, isdisjoint) and clear_cache().
+Round 3: CORRELATED successor-search calls (the chains of harness/ops/C14.py): a call starts at the word the
+previous call returned (computed by the brute-force oracle when the history is generated), with strictness /
+direction / window / wrapper / ranking changed in between (successor → successor(strict=False) → predecessor …).
 
 Property oracle (independent of the model): every answer of the long-lived instance is compared
 with the answer of the same call on a *fresh copy* (for `next(g)`: a fresh copy on which the same
@@ -42,7 +45,8 @@ LEVEL = "proof"
 RULE = ("cases = (valid DFA, history of ≤30 public calls on one instance, incl. live generators of all three kinds "
         "(words_of_length, iter, successors/predecessors) advanced between other calls and across clear_cache, abandoned "
         "generators, minify / to_partial (digraph memo), successor search with key=None / fresh callables / one shared "
-        "callable whose ranking changes between calls); corpus (mutant killers, short-after-long and long-after-short "
+        "callable whose ranking changes between calls; correlated chains: a call starts at the previous answer with "
+        "strictness / direction / window / ranking flipped); corpus (mutant killers, written-out successor loops, short-after-long and long-after-short "
         "lengths, shared-key pairs, generators across clear_cache), all histories of length ≤2 (thorough: ≤3) over 18 "
         "call groups on 20 DFAs, then random histories on shaped random DFAs (≤6 states); evaluations = calls compared "
         "with a fresh copy; a history is non-trivial when it contains ≥2 cache-touching calls on a DFA with a "
@@ -63,6 +67,8 @@ EXPLANATION = ("Theorem C20_history: for every DFA and every finite history the 
                "random histories and evaluates the property on the real code against fresh copies.")
 
 NX_FUEL = 60
+HANGS = 0           # histories ended by a real call that did not return (time / memory guard of L.guarded)
+MAX_HANGS = 8
 MEMO = ["_get_digraph", "isempty", "isfinite", "cardinality", "minimum_word_length", "maximum_word_length"]
 OTHER_OPS = ["eq", "le", "ge", "lt", "gt", "issubset", "issuperset", "isdisjoint",
              "complement", "complement_keep", "union", "union_keep"]
@@ -366,8 +372,25 @@ def run_history(ctx: Ctx, d: DFA, other: DFA, hist, origin: str, kmax: int):
     real, snaps, bad = [], [], []
     touching = 0
     fresh_graph = None
+    hung = False
+    full_hist = hist
     for i, q in enumerate(hist):
         a = R.run(q)
+        if a == ("err", "_Timeout"):
+            # the call did not return (time or memory guard): the object is left in an arbitrary state, possibly
+            # with caches grown without bound — judge this call, then end the history (no snapshot, no sweep)
+            global HANGS
+            HANGS += 1
+            hung = True
+            ctx.case(None)
+            ctx.stat("history_ended_by_a_call_that_did_not_return")
+            f = fresh_answer(d, other, q, R.kinds, R.nexts)
+            if f is not None and f != a:
+                bad.append(f"call #{i} {show_q(q)} after {i} earlier calls did not return (time / memory guard); the same "
+                           f"call on a fresh copy answers {str(f)[:120]}")
+            full_hist = hist[: i + 1]
+            hist = hist[:i]
+            break
         real.append(a)
         snaps.append(snapshot(inst, st, sy))
         if snaps[-1][2][0]:
@@ -388,18 +411,20 @@ def run_history(ctx: Ctx, d: DFA, other: DFA, hist, origin: str, kmax: int):
             ctx.stat(f"next:{R.kinds[q['h']][0]}")
         if q["q"] in ("SU", "FI", "SO"):
             ctx.stat(f"succ_key:{q['p'].get('keymode', 'int')}")
+            if q["p"].get("from_prev"):
+                ctx.stat("succ:starts_at_the_previous_answer")
         if q["q"] not in ("A", "OT", "WO", "IO", "SO"):
             touching += 1
         if f is not None and f != a:
             bad.append(f"call #{i} {show_q(q)} after {i} earlier calls answered {str(a)[:120]}; the same call on a fresh copy answers {str(f)[:120]}")
     # final sweep: every populated level must still give the fresh answers
-    for k in range(len(inst._count_cache)):
+    for k in range(0 if hung else len(inst._count_cache)):
         a = call(lambda: inst.count_words_of_length(k))
         c = d.copy()
         f = call(lambda: c.count_words_of_length(k))
         if a != f:
             bad.append(f"after the history, count_words_of_length({k}) = {a}, fresh copy: {f}")
-    for k in range(len(inst._word_cache)):
+    for k in range(0 if hung else len(inst._word_cache)):
         a = call(lambda: list(inst.words_of_length(k)))
         c = d.copy()
         f = call(lambda: list(c.words_of_length(k)))
@@ -412,7 +437,9 @@ def run_history(ctx: Ctx, d: DFA, other: DFA, hist, origin: str, kmax: int):
     if ctx.stats.get(f"origin:{origin}", 0) % 400 == 1:
         ctx.sample(dict(describe(d, other, hist[:8]), answers=[str(a)[:60] for a in real[:8]]))
     for b in bad:
-        ctx.prop_fail(b, dict(describe(d, other, hist), what=b), None)
+        ctx.prop_fail(b, dict(describe(d, other, full_hist), what=b), None)
+    if hung:
+        inst.clear_cache()
     # ---- model
     mod = model_history(ctx, enc, sy, hist)
     need = max([kmax + 1] + [max(len(ct), len(wt)) for ct, wt, _ in snaps])
@@ -461,6 +488,8 @@ def show_q(q: dict) -> str:
         return f"next(g{q['h']})"
     if k == "RW":
         return f"random_word({q['k']}, seed={q['seed']})"
+    if k in ("SU", "FI") and "call" in q["p"]:
+        return S.show_chain_step(q["p"])
     if k in ("SU", "FI"):
         return f"{'successors' if k == 'SU' else 'successor/predecessor'}({q['p']})"
     if k == "SO":
@@ -498,6 +527,13 @@ def rand_succ_query(rng, d: DFA, shape, bw, hi, kind):
     return dict(q=kind, p=p)
 
 
+def chain_queries(chain):
+    """A C14 chain (correlated successor-search calls: each starts at the word the previous one returned —
+    computed with the brute-force oracle when the history is generated — with strictness / direction / window /
+    ranking / wrapper changed in between) as atomic history queries."""
+    return [dict(q="FI" if p["call"] in ("successor", "predecessor") else "SU", p=p) for p in chain]
+
+
 def rand_history(rng, d: DFA, length: int):
     kmax = kmax_for(d)
     shape = L.language_shape(d)
@@ -508,6 +544,7 @@ def rand_history(rng, d: DFA, length: int):
     hist = []
     handles = 0
     live = []
+    orc = None
     while len(hist) < length:
         r = rng.random()
         k = rng.choice([0, 1, 2, kmax, rng.randint(0, kmax), rng.randint(0, kmax)])
@@ -550,15 +587,18 @@ def rand_history(rng, d: DFA, length: int):
                     if rng.random() < 0.7:
                         q2["p"]["reverse"] = q["p"]["reverse"] if S.in_domain(d, dict(q2["p"], reverse=q["p"]["reverse"]), shape) else q2["p"]["reverse"]
                     hist.append(q2)
-        elif r < 0.91 and can_succ:
+        elif r < 0.905 and can_succ and not shape["empty"]:
+            orc = orc or S.ChainOracle(d, shape, hi, bw)
+            hist.extend(chain_queries(S.rand_chain(rng, d, orc)))
+        elif r < 0.925 and can_succ:
             q = rand_succ_query(rng, d, shape, bw, hi, "SO")
             if q["q"] == "SO":
                 hist.append(q); live.append(handles); handles += 1
                 if rng.random() < 0.5:
                     hist.append(dict(q="NX", h=handles - 1))
-        elif r < 0.945:
+        elif r < 0.953:
             hist.append(dict(q="CLR"))
-        elif r < 0.97:
+        elif r < 0.975:
             hist.append(dict(q="GO", op=rng.choice(sorted(GRAPH_OPS))))
         else:
             hist.append(dict(q="OT", op=rng.choice(OTHER_OPS)))
@@ -652,6 +692,26 @@ def corpus():
                 dict(q="NX", h=0), dict(q="NX", h=0), dict(q="NX", h=0), dict(q="NX", h=0), dict(q="NX", h=1), dict(q="NX", h=1)]
     yield uni, [so(True, "ab"), dict(q="FINITE"), dict(q="NX", h=0), dict(q="NX", h=0), so(False, "b", max=2),
                 dict(q="GO", op="minify"), dict(q="NX", h=1), dict(q="CLR"), dict(q="NX", h=1), dict(q="NX", h=1), dict(q="NX", h=1)]
+    # correlated successor-search calls (seed C20_w3m3): `w = successor(w)` loops whose every answer is asked about
+    # again — non-strictly, strictly, in the other direction, with another window, through the generator — with
+    # key=None / one shared callable / fresh callables, other queries and clear_cache in between
+    no11 = DFA.from_substring({"0", "1"}, "11", contains=False)
+    for dd, hi_ in ((fin, None), (uni, 3), (no11, 4)):
+        orc = S.ChainOracle(dd)
+        sy_ = sorted(dd.input_symbols)
+        cp, rv = {c: i for i, c in enumerate(sy_)}, {c: -i for i, c in enumerate(sy_)}
+        for keymode, key in (("none", cp), ("shared", rv), ("none_explicit", cp), ("int", cp)):
+            for start in ("", sy_[-1]):
+                ch = chain_queries(S.walk_chain(orc, start, 0, hi_, keymode, key))
+                yield dd, ch[:24]
+                mixed = []
+                for i_, q_ in enumerate(ch[:18]):
+                    mixed.append(q_)
+                    if i_ % 5 == 2:
+                        mixed.append([dict(q="C", k=2), dict(q="CLR"), dict(q="MAX")][(i_ // 5) % 3])
+                yield dd, mixed
+        if orc.shape["finite"]:
+            yield dd, chain_queries(S.walk_chain(orc, sy_[-1] * 5, 0, hi_, "none", cp, reverse=True))[:24]
     part = DFA(states={0, 1, 2, 3}, input_symbols=ab, transitions={0: {"a": 1, "b": 2}, 1: {"a": 3}, 2: {"a": 2, "b": 2}, 3: {}},
                initial_state=0, final_states={1, 3}, allow_partial=True)
     yield part, [dict(q="GO", op="minify"), dict(q="MAX"), dict(q="GO", op="to_partial_plain"), so(True, None), dict(q="NX", h=0),
@@ -688,13 +748,17 @@ def run(ctx: Ctx):
                     if q["q"] in ("SU", "FI", "SO"):
                         shape = shape or L.language_shape(d)
                         ok = ok and S.in_domain(d, q["p"], shape)
-                if ok:
+                if ok and HANGS < MAX_HANGS:
                     run_history(ctx, d, other, hist, "exhaustive", 5)
     ctx.exhaustive(f"all sequences of ≤{Lmax} call groups out of {len(MACROS)} (count 0/2/4, words 1 exhausted, words 3 one step, "
                    "words 2 unopened, iter two steps, cardinality, min, max, isfinite, random_word, clear_cache, "
                    "successors, predecessor, successors generator two steps, to_partial, minify) on 20 fixed DFAs over {a,b}")
     # ---- random histories
     for _ in range(ctx.budget(700, 25000)):
+        if HANGS >= MAX_HANGS:
+            ctx.note(f"{HANGS} histories ended by a real call that did not return within {S.TIMEOUT_S}s / its memory "
+                     "allowance; random histories cut short")
+            break
         d, kind = L.shaped_dfa(rng, 6)
         if not d.input_symbols:
             continue
